@@ -166,7 +166,7 @@ func (e *Engine) doAssert(c Term, tag string) {
 			o.Violated++
 			if len(o.Cex) < 3 {
 				// any model of the path condition is a counterexample
-				cx := Cex{Path: e.pathString(), Kinds: e.kinds, Ground: true}
+				cx := Cex{Path: e.pathString(), Kinds: e.kinds, Ground: true, Sched: append([]int(nil), e.schedLog...)}
 				if r := e.solver.Check(); r == "sat" {
 					if v, err := e.modelVector(); err == nil {
 						cx.Vector = v
@@ -190,7 +190,7 @@ func (e *Engine) doAssert(c Term, tag string) {
 		e.solver.Assert(*e.cexPrefer)
 		if e.solver.Check() == "sat" {
 			o.Violated++
-			cx := Cex{Path: e.pathString(), Kinds: e.kinds}
+			cx := Cex{Path: e.pathString(), Kinds: e.kinds, Sched: append([]int(nil), e.schedLog...)}
 			if v, err := e.modelVector(); err == nil {
 				cx.Vector = v
 			} else {
@@ -210,7 +210,7 @@ func (e *Engine) doAssert(c Term, tag string) {
 	case "sat":
 		o.Violated++
 		if len(o.Cex) < 3 {
-			cx := Cex{Path: e.pathString(), Kinds: e.kinds}
+			cx := Cex{Path: e.pathString(), Kinds: e.kinds, Sched: append([]int(nil), e.schedLog...)}
 			if v, err := e.modelVector(); err == nil {
 				cx.Vector = v
 			} else {
